@@ -1,7 +1,7 @@
 SPECIFICATION MCSpec
 CONSTANTS
-  Nodes = {"a","b","c"}
-  Voters0 = {"a","b","c"}
+  Nodes = {"a", "b", "c"}
+  Voters0 = {"a", "b", "c"}
   Observers = {}
   Nil = "Nil"
   BatchBytes = 50
@@ -9,7 +9,7 @@ CONSTANTS
   WaitLeader = TRUE
   QueueSize = 10
   SpecialCids = {}
-  Journal = FALSE
+  Journal = TRUE
   DumpFile = FALSE
   VersionedCids = {}
   QuietCids = {}
@@ -19,22 +19,22 @@ CONSTANTS
   Membership = FALSE
   CompactMin = 1000000
   SnapChunk = 65536
-  Cmds = {}
+  Cmds = {"c1"}
   CmdSize = 40
-  MaxTerm = 2
+  MaxTerm = 1
   MaxLog = 4
   MaxChan = 2
   MaxFaults = 1
-  Electors = {"a","b","c"}
-  SubmitAt = {}
-  Advs0 = {"z","j"}
+  Electors = {"a"}
+  SubmitAt = {"a"}
+  Advs0 = {"z", "h", "j"}
   SnapSize = 100
   Compactors = {}
-  FaultPairs = {{"a","b"},{"a","c"},{"b","c"},{"a","d"},{"b","d"},{"c","d"},{"a","e"},{"b","e"},{"c","e"},{"d","e"}}
+  FaultPairs = {}
   Isolated0 = {}
   MembCids = {}
   MembTargets = {}
-  CrashNodes = {}
+  CrashNodes = {"b"}
   Spares = {}
   MaxDepth = 100
 CONSTRAINT Bound
@@ -49,6 +49,7 @@ INVARIANT OneVotePerTerm
 INVARIANT CommittedStable
 INVARIANT LogMatching
 INVARIANT NoEscape
+INVARIANT NoOlderTerm
 PROPERTY P_MonotoneIndices
 PROPERTY P_HistAppendOnly
 PROPERTY P_CommitIsQuorumBacked
